@@ -9,6 +9,9 @@
 (***************************************************************************)
 EXTENDS WriteSched, Json, TLCExt
 
+CONSTANT Throttle      \* the recorded scheduler was built with ThrottleOutOfOrderWrites: a DATA piece may be smaller than the windows and the
+                       \* frame size allow (never larger) - the observed length is taken as the caller's budget
+
 TraceLog == ndJsonDeserialize("trace_c20.ndjson")
 
 VARIABLE l
@@ -38,7 +41,7 @@ TraceNext ==
        [] Ev.op = "setwin"   -> SetWin(Ev.s, Ev.v)
        [] Ev.op = "setcwin"  -> SetCWin(Ev.v)
        [] Ev.op = "setmf"    -> SetMaxFrame(Ev.v)
-       [] Ev.op = "pop"      -> /\ (PopCtl \/ PopNone \/ \E s \in Ids : PopFrom(s))
+       [] Ev.op = "pop"      -> /\ (PopCtl \/ PopNone \/ \E s \in Ids : PopFromCap(s, IF Throttle /\ Ev.ok /\ Ev.k = "D" /\ Ev.len > 0 THEN Ev.len ELSE NoCap))
                                 /\ out' = ObservedOut
        [] Ev.op = "reset"    -> Reset
        [] OTHER              -> FALSE          \* e.g. a recorded panic: no action of the specification explains it
